@@ -11,7 +11,7 @@ use std::{
     result::Result as StdResult,
     slice,
     sync::{
-        self, Arc, Mutex, MutexGuard, RwLock,
+        self, Arc, MutexGuard,
         atomic::{self, AtomicBool},
     },
     usize,
@@ -3044,3 +3044,9 @@ mod tests {
         send(RootedThread::new());
     }
 }
+
+// The locks are the ones of `std` unless the build is instrumented for schedule exploration
+#[cfg(not(gluon_verif))]
+use std::sync::{Mutex, RwLock};
+#[cfg(gluon_verif)]
+use crate::verif::sync::{Mutex, RwLock};
